@@ -78,6 +78,9 @@ func buildSchema(impl string, stringKeys bool) *graphql.Schema {
 		mixed := map[string]map[string]string{"mixed": {"name": "plainp", "desc": "batchp"}, "mixed2": {"name": "expensive", "desc": "plainp"}, "mixed3": {"name": "batchp", "desc": "expensive"}}
 		ff := func(name string, get func(Item) string) {
 			kind := impl
+			if kind == "manualfb" {
+				kind = "plain"
+			}
 			if m, ok := mixed[impl]; ok {
 				kind = m[name]
 			}
@@ -117,7 +120,7 @@ func buildSchema(impl string, stringKeys bool) *graphql.Schema {
 		ff("name", func(i Item) string { return i.Name })
 		ff("desc", func(i Item) string { return i.Desc })
 		switch impl {
-		case "plain":
+		case "plain", "manualfb":
 			opts = append(opts, schemabuilder.SortField("rank", func(i Item) int64 { return i.Rank }),
 				schemabuilder.SortField("score", func(i Item) float64 { return i.Score }),
 				schemabuilder.SortField("u", func(i Item) uint8 { return i.U }),
@@ -183,7 +186,16 @@ func buildSchema(impl string, stringKeys bool) *graphql.Schema {
 					return out, nil
 				}, func(ctx context.Context, i *Item) (string, error) { return i.Label, nil }, useBatch))
 		}
-		if impl == "plain" || impl == "batch" {
+		if impl == "manualfb" {
+			// a manually paginated resolver with a thunder-managed fallback, and the flag says
+			// "use the fallback": the field is thunder-managed
+			q.ManualPaginationWithFallback("items",
+				func(ctx context.Context, args manualArgs) ([]Item, schemabuilder.PaginationInfo, schemabuilder.PostProcessOptions, error) {
+					return nil, schemabuilder.PaginationInfo{}, schemabuilder.PostProcessOptions{}, fmt.Errorf("the manual resolver must not be used")
+				},
+				func(ctx context.Context, args plainArgs) ([]Item, error) { return current(), nil },
+				func(ctx context.Context) bool { return true }, opts...)
+		} else if impl == "plain" || impl == "batch" {
 			q.FieldFunc("items", func() []Item { return current() }, opts...)
 		} else {
 			q.FieldFunc("items", func(ctx context.Context) ([]*Item, error) {
@@ -215,7 +227,16 @@ func buildSchema(impl string, stringKeys bool) *graphql.Schema {
 	return s.MustBuild()
 }
 
-var impls = []string{"plain", "expensive", "batch", "batchfb", "stringkeys", "mixed", "mixed2", "mixed3"}
+var impls = []string{"plain", "expensive", "batch", "batchfb", "stringkeys", "mixed", "mixed2", "mixed3", "manualfb"}
+
+type manualArgs struct {
+	Note           *string
+	PaginationArgs schemabuilder.PaginationArgs
+}
+
+type plainArgs struct {
+	Note *string
+}
 
 func init() {
 	for _, im := range impls {
